@@ -6,6 +6,8 @@ import Otel.Base.Wire
 import Otel.C02.Sys
 import Otel.C02.Spec
 import Otel.C02.Obs
+import Otel.C02.ReaderLts
+import Otel.C02.Exemplar
 open Otel Otel.Wire Otel.C02
 
 namespace Otel.C02.Drv
@@ -66,6 +68,9 @@ def expandForced (groups : List (List String)) : List (List String) :=
     match g with
     | ["ovltf", r, j, a, v] => [["tick", r], ["add", j, a, v], ["flush"]]
     | ["ovlff", _, j, a, v] => [["flush"], ["add", j, a, v], ["flush"]]
+    -- Shutdown of reader r started while its interval export is between collect and export: Shutdown waits for the run
+    -- loop (`<-r.done`; ReaderLts.lean: `shutSwap` needs `loop = exited`), so the interval export comes first
+    | ["ovlts", r, j, a, v] => [["tick", r], ["add", j, a, v], ["rshut", r]]
     | ["shutslow"] => [["shut"]]
     | _ => [g]
 
@@ -336,6 +341,68 @@ def obsOracle (rs : List (Temporality × Temporality)) (is : List OInst) (ops : 
 
 def tagIf (b : Bool) (t : String) : List String := if b then [t] else []
 
+/-! ### `ex` lines: the exemplar reservoir hand-off (Exemplar.lean) -/
+
+def parseEStep (i : Nat) : List String → Option EStep
+  | ["add", a, v, s] => do pure (.measure (← parseNat a) (← parseInt v) (s == "1") (i + 1))
+  | ["col"] => some (.collect (i + 1))
+  | _ => none
+
+def parseFilt (s : String) : Option Filt :=
+  if s == "on" then some .alwaysOn else if s == "off" then some .alwaysOff
+  else if s == "tb" || s == "df" then some .traceBased else none
+
+/-- `K` = the harness' keep-all reservoir, `F<k>` = FixedSizeReservoir(k) -/
+def parseRes (s : String) : Option (Option Nat) :=
+  if s == "K" then some none
+  else match s.toList with
+    | 'F' :: r => (parseNat (String.ofList r)).map some
+    | _ => none
+
+def renderEx (e : Ex) : String := s!"{e.v}@{e.tag}"
+
+def renderEPts (pts : List (Attr × EVal)) : String :=
+  if pts.isEmpty then "-" else
+  ",".intercalate (pts.map fun p =>
+    s!"{p.1}={p.2.n}/" ++ (if p.2.exs.isEmpty then "-" else ".".intercalate (p.2.exs.map renderEx)))
+
+def parseEx (s : String) : Option Ex :=
+  match s.splitOn "@" with
+  | [v, t] => do pure ⟨← parseInt v, ← parseNat t⟩
+  | _ => none
+
+def parseEPts (s : String) : Option (List (Attr × EVal)) :=
+  if s == "-" then some [] else
+  (s.splitOn ",").mapM fun q =>
+    match q.splitOn "=" with
+    | [a, r] =>
+      match r.splitOn "/" with
+      | [v, es] => do
+        let exs ← if es == "-" then some [] else (es.splitOn ".").mapM parseEx
+        pure (← parseNat a, (⟨← parseInt v, exs⟩ : EVal))
+      | _ => none
+    | _ => none
+
+/-- reference semantics straight from the history (no aggregator): per collection, the measurements since the previous
+collection (all of them / those the filter let through) and all measurements so far -/
+def exOracle (tp : Temporality) (f : Filt) (k : Option Nat) (steps : List EStep) (recs : List (List (Attr × EVal))) : Bool :=
+  let acc := steps.foldl (fun (st : List (Nat × Int) × List (Nat × Int) × List (Attr × Ex) × List (Attr × EVal) × List (List (Attr × EVal)) × Bool) x =>
+    let (all, since, passed, prev, rest, ok) := st
+    match x with
+    | .measure a v sampled tag =>
+      (all ++ [(a, v)], since ++ [(a, v)], if f.pass sampled then passed ++ [(a, ⟨v, tag⟩)] else passed, prev, rest, ok)
+    | .collect _ =>
+      match rest with
+      | [] => (all, [], [], [], [], false)
+      | pts :: rest' =>
+        let base := if tp == .delta then since else all
+        let vals := pts.map fun p => (p.1, p.2.n)
+        let good := Spec.exemplarsExact k (tp == .cumulative) prev passed pts && Spec.nodupAttrs vals &&
+          Spec.onlyMeasured base vals &&
+          base.all (fun m => vals.any (·.1 == m.1)) && vals.all (fun p => p.2 == Spec.total base p.1)
+        (all, [], [], pts, rest', ok && good)) ([], [], [], [], recs, true)
+  acc.2.2.2.2.2 && acc.2.2.2.2.1.isEmpty
+
 def stepLine (_ : Unit) (toks : List String) : Unit × Option Verdict :=
   let (inp, obs) := splitObs toks
   match inp with
@@ -372,6 +439,7 @@ def stepLine (_ : Unit) (toks : List String) : Unit × Option Verdict :=
           tagIf (preCancel && hasCb && errRec) "abandoned-before-aggregation" ++ tagIf (preCancel && !hasCb) "cancelled-ctx-ignored" ++
           tagIf rejecting "absent-stream" ++
           tagIf (groups.any fun g => g.head? == some "ovltf") "flush-overlapping-interval-export" ++
+          tagIf (groups.any fun g => g.head? == some "ovlts") "shutdown-overlapping-interval-export" ++
           tagIf (groups.any fun g => g.head? == some "ovlff") "overlapping-flushes" ++
           tagIf (groups.contains ["shutslow"]) "shutdown-own-deadline-slow-exporter" ++
           tagIf ((List.range is.length).any fun j => names.getD j j != j && ownerOf is names j == j) "same-name-different-stream" ++
@@ -402,6 +470,34 @@ def stepLine (_ : Unit) (toks : List String) : Unit × Option Verdict :=
                nontrivial := overlap && model.any (fun rc => !rc.2.2.isEmpty),
                branches := ",".intercalate tags, model := " ".intercalate mstr }
     ((), r)
+  | "ex" :: _ :: tps :: inst :: fs :: rs :: _ :: rest =>
+    let r : Option Verdict := do
+      let tp ← (tps.toList.head?).bind parseTemp
+      let _ ← parseInst inst
+      let f ← parseFilt fs
+      let k ← parseRes rs
+      let groups := splitBar rest
+      let steps ← ((List.range groups.length).zip groups).mapM fun (i, g) => parseEStep i g
+      let view := fun (reports : List (List (Pt EVal))) => reports.map fun pts => sortByAttr (pts.map fun p => (p.attr, p.val))
+      let model := match k with
+        | some k => view ((ESt.fresh tp : ESt FixRes).run (fixedSize k) f steps).reports
+        | none => view ((ESt.fresh tp : ESt (List Ex)).run keepAll f steps).reports
+      let mstr := model.map renderEPts
+      match obs.mapM parseEPts with
+      | none => pure { agree := false, spec := "FAIL", nontrivial := false, branches := "unparsed-observation", model := " ".intercalate mstr }
+      | some recs =>
+        let spec := exOracle tp f k steps recs
+        let anyEx := model.any fun pts => pts.any fun p => !p.2.exs.isEmpty
+        let tags := ["exemplars", if tp == .delta then "ex-delta" else "ex-cumulative", "filter-" ++ fs,
+            if k.isSome then "fixed-size-reservoir" else "keep-all-reservoir"] ++
+          tagIf (steps.any fun x => match x with | .measure _ _ s _ => !f.pass s | _ => false) "offer-filtered-out" ++
+          tagIf (tp == .cumulative && model.any fun pts => pts.any fun p => p.2.exs.isEmpty) "cumulative-point-without-new-exemplars" ++
+          tagIf (tp == .cumulative && k.isSome && (model.zip (model.drop 1)).any fun (p, q) =>
+            q.any fun y => !y.2.exs.isEmpty && p.any fun x => x.1 == y.1 && x.2.exs.any fun e => y.2.exs.contains e) "fixed-size-persisting-exemplars"
+        pure { agree := mstr == obs, spec := if spec then "ok" else "FAIL",
+               nontrivial := anyEx && model.length > 2,
+               branches := ",".intercalate tags, model := " ".intercalate mstr }
+    ((), r)
   | ["conc", _, rstr, istr, g, rep, a, _] =>
     let r : Option Verdict := do
       let rs ← (rstr.splitOn ",").mapM parseReader
@@ -409,12 +505,26 @@ def stepLine (_ : Unit) (toks : List String) : Unit × Option Verdict :=
       let G ← parseNat g
       let rep ← parseNat rep
       let A ← parseNat a
+      -- `X:` tokens: the ghost counters of the fine-grained reader LTS read off the recording exporter after Shutdown
+      let xtoks := obs.filter (·.startsWith "X:")
+      let obs := obs.filter fun o => !o.startsWith "X:"
+      let xok := xtoks.all fun x =>
+        match x.splitOn ":" with
+        | [_, r, mx, late, b, e, after] =>
+          (match parseNat r, parseNat mx, parseNat late, parseNat b, parseNat e with
+           | some r, some mx, some late, some b, some e =>
+             (match rs[r]? with | some rc => rc.periodic | none => false) && Spec.readerObsOK mx late b e (after == "err")
+           | _, _, _, _, _ => false)
+        | _ => false
+      let xok := xok && xtoks.length == (rs.filter (·.periodic)).length
       match obs.mapM parseRec with
       | none => pure { agree := false, spec := "FAIL", nontrivial := false, branches := "unparsed-observation", model := "-" }
       | some recs =>
         let (agree, spec) := concCheck rs is G rep A recs
+        let spec := spec && xok
         let nrec := recs.length
         let tags := ["conc"] ++ tagIf (rs.any (·.periodic)) "periodic" ++ tagIf (nrec > 2 * rs.length) "racing-collections" ++
+          tagIf (!xtoks.isEmpty) "reader-lts-counters" ++
           tagIf (rs.any fun rc => is.any fun ic => absent rc ic) "absent-stream"
         pure { agree := agree, spec := if spec then "ok" else "FAIL", nontrivial := nrec > rs.length,
                branches := ",".intercalate tags, model := s!"records={nrec}" }
